@@ -41,6 +41,7 @@ func c07Doc(name string, ti vocab.TypeInfo, known bool) map[string]interface{} {
 	switch ti.GoType {
 	case "Place":
 		d["latitude"] = 12.5
+		d["altitude"] = -430.5
 	case "Profile":
 		d["describes"] = "https://example.com/described"
 	case "Tombstone":
@@ -93,6 +94,7 @@ func c07Value(name string, ti vocab.TypeInfo) ap.Item {
 	switch ti.GoType {
 	case "Place":
 		v.FieldByName("Latitude").SetFloat(12.5)
+		v.FieldByName("Altitude").SetFloat(-430.5)
 	case "Profile":
 		setItem("Describes", ap.IRI("https://example.com/described"))
 	case "Tombstone":
@@ -160,6 +162,8 @@ func c07CheckMarkers(it ap.Item, name string, ti vocab.TypeInfo) string {
 	case "Place":
 		if sv.FieldByName("Latitude").Float() != 12.5 {
 			bad = fmt.Sprintf("latitude = %v", sv.FieldByName("Latitude").Float())
+		} else if sv.FieldByName("Altitude").Float() != -430.5 {
+			bad = fmt.Sprintf("altitude = %v", sv.FieldByName("Altitude").Float())
 		}
 	case "Profile":
 		if link("Describes") != "https://example.com/described" {
